@@ -4,9 +4,14 @@
   NNG_ENOMEM with its observable state unchanged", proved in the component models and collected
   here; the rest of the library is covered by fault enumeration (vlib/props/c20.py), which
   supports this but is not a proof.
+  Components whose models carry an allocation oracle: nng_msg (C17), nni_lmq / nni_msgq / id map
+  (C18), nni_msg_pull_up (C01).  URL, HTTP, WebSocket, statistics, socket / endpoint / pipe
+  creation and library start-up have no oracle in their models: fault enumeration only
+  (UNIT: u_urlfail, u_wsfail, u_httpfail; SIM: s_proto incl. `stats`; REAL: r_allocfail).
 -/
 import NngModel.Props.C17
 import NngModel.Props.C18
+import NngModel.Props.C01
 namespace Nng.C20
 open Nng Nng.Msg
 
@@ -37,5 +42,47 @@ theorem msg_runs_survive_allocation_failures (m : Msg) (h : MWF m) (ops : List (
     Nng.C17.Explains (abs m) ops (Nng.C17.runModel m ops) ∧
     ∀ o ∈ Nng.C17.runModel m ops, o.safe = true ∧ o.capOk = true :=
   Nng.C17.every_run_is_two_strings m h ops
+
+/-- nni_lmq: every run of put/get/flush/resize under every sequence of allocator answers is
+    explained by the bounded FIFO; a resize that cannot allocate reports NNG_ENOMEM, hands out and
+    frees nothing and leaves the queue content and capacity exactly as they were (`LmqExplains`). -/
+theorem lmq_runs_survive_allocation_failures (ops : List (Nng.QSpec.FOp × Bool)) (q : Lmq.Lmq) (l : List Nng.QSpec.Msg)
+    (h : Lmq.Rep q l) : Nng.C18.LmqExplains ⟨q.cap, l⟩ ops (Nng.C18.lmqRun q ops) :=
+  Nng.C18.lmq_refines_bounded_fifo ops q l h
+
+/-- nni_msgq: likewise for tryput / aio_put / aio_get / cancel / close / resize against the FIFO
+    channel: a failed resize is NNG_ENOMEM with no completion, nothing freed, channel unchanged. -/
+theorem msgq_runs_survive_allocation_failures (ops : List (Nng.QSpec.COp × Bool)) (q : Msgq.Msgq) (l : List Nng.QSpec.Msg)
+    (h : Msgq.RingRep q l) : Nng.C18.MsgqExplains (Msgq.chanOf q l) ops (Nng.C18.msgqRun q ops) :=
+  Nng.C18.msgq_refines_fifo_channel ops q l h
+
+/-- id map, nni_id_set: whatever the allocator answers the call stays in bounds and is either the
+    finite map's `set`, or — only under a failing allocator — NNG_ENOMEM with the map unchanged. -/
+theorem idmap_set_failure_is_clean {m : IdHash.IdMap} {s : Nng.QSpec.IdSpec} (h : IdHash.Rep m s)
+    (k v : Nat) (hv : v ≠ 0) (ok : Bool) :
+    (IdHash.idSet m k v ok).2.2 = true ∧
+    (((IdHash.idSet m k v ok).2.1 = 0 ∧ IdHash.Rep (IdHash.idSet m k v ok).1 (s.set k v)) ∨
+     (ok = false ∧ (IdHash.idSet m k v ok).2.1 = Err.enomem ∧ (IdHash.idSet m k v ok).1 = m)) :=
+  Nng.C18.idmap_set_refines h k v hv ok
+
+/-- id map: every run of set / remove / alloc under every sequence of allocator answers is explained
+    by the finite-map specification, failed steps being NNG_ENOMEM no-ops (alloc: the chosen
+    identifier is skipped), so later calls behave as specified. -/
+theorem idmap_runs_survive_allocation_failures (ops : List (IdHash.IOp × Bool)) (m : IdHash.IdMap) (s : Nng.QSpec.IdSpec)
+    (h : IdHash.Rep m s)
+    (hv : ∀ p, p ∈ ops → (∀ k v, p.1 = .set k v → v ≠ 0) ∧ (∀ v rnd, p.1 = .alloc v rnd → v ≠ 0)) :
+    Nng.C18.IdExplains m s ops :=
+  Nng.C18.idmap_run_refines_any_allocator ops m s h hv
+
+/-- nni_msg_pull_up (inproc send path), any allocator answer (`fail` = which allocation fails): all
+    accesses stay inside the messages and the result is either NULL — the one message is dropped
+    whole, the documented best-effort loss — or the merged message; never a half-merged one. -/
+theorem pull_up_failure_is_clean (m : Msg) (h : MWF m) (refcnt : Nat) (fail : Option Nat)
+    (hsz : m.body.len + m.hlen + 64 ≤ sizeMax) :
+    (Nng.Sp.pullUp m refcnt fail).2 = true ∧
+    ((Nng.Sp.pullUp m refcnt fail).1 = none ∨
+     ∃ m', (Nng.Sp.pullUp m refcnt fail).1 = some m' ∧ MWF m' ∧
+        abs m' = ⟨[], Nng.SpSpec.payload (abs m).hdr (abs m).body⟩) :=
+  Nng.C01.pull_up_merges m h refcnt fail hsz
 
 end Nng.C20
